@@ -414,11 +414,52 @@ static void p3_run(uint64_t idx, vh_rng_t * rng) {
     vh_ctx_free(v);
 }
 
+static int first_differs(const vh_stepres_t * r, int want) {
+    /* the kit stores the first element as its raw bit pattern */
+    if (r->kind == VR_ARR_FLOAT) { uint32_t b = (uint32_t) r->u; float f; memcpy(&f, &b, 4); return f != (float) want; }
+    if (r->kind == VR_ARR_DOUBLE) { double d; memcpy(&d, &r->u, 8); return d != (double) want; }
+    if (r->kind == VR_ARR_INT32 || r->kind == VR_ARR_UINT32) return (uint32_t) r->u != (uint32_t) want;
+    return r->u != (uint64_t) want;
+}
+/* phase 4: array readers, only where the statement is unambiguous: all elements well typed -> TRUE with all of them (up to the
+ * capacity), nothing queued except -108 for surplus items; no item at all for a mandatory array -> FALSE and -109 */
+static uint64_t p4_count(int thorough) { return vh_scaled(thorough ? 200000 : 20000); }
+static void p4_run(uint64_t idx, vh_rng_t * rng) {
+    static const uint8_t kinds[] = { VR_ARR_INT32, VR_ARR_UINT32, VR_ARR_INT64, VR_ARR_UINT64, VR_ARR_FLOAT, VR_ARR_DOUBLE };
+    static vh_sig_t s4; static vh_buf_t msg; vh_ctx_t * v; int n = (int) vh_below(rng, 7), cap = 1 + (int) vh_below(rng, 6), i, mand = (int) vh_below(rng, 2); int vals[8]; char key[96];
+    const vh_inv_t * inv; int want_err;
+    (void) idx;
+    memset(&s4, 0, sizeof s4);
+    s4.nsteps = 1; s4.steps[0].kind = kinds[vh_below(rng, 6)]; s4.steps[0].mandatory = (uint8_t) mand; s4.steps[0].cap = (uint16_t) cap;
+    vh_buf_reset(&msg); vh_buf_adds(&msg, "CMD");
+    for (i = 0; i < n; i++) { vals[i] = (int) vh_below(rng, 100000); vh_buf_printf(&msg, "%s%s%d%s", i ? "," : " ", vh_chance(rng, 1, 4) ? " " : "", vals[i], vh_chance(rng, 1, 4) ? " " : ""); }
+    vh_buf_addc(&msg, '\n');
+    vh_case_desc("array reader %s cap %d on %s", vh_reader_names[s4.steps[0].kind], cap, vh_esc(msg.p, msg.len));
+    v = vh_ctx_new(cmds, 256, 8, 64); v->log_enabled = 0; v->sigs = &s4; v->nsigs = 1;
+    vh_input(v, msg.p, msg.len);
+    vh_eval(1);
+    inv = v->ninv == 1 ? &v->inv[0] : NULL;
+    want_err = n == 0 ? (mand ? -109 : 0) : (n > cap ? -108 : 0);
+    if (!inv || inv->nsteps_done != 1) vh_violation("C05:array-unit-not-executed", "unit %s: handler ran %d times", vh_esc(msg.p, msg.len), v->ninv);
+    else {
+        const vh_stepres_t * r = &inv->res[0]; int expect_ok = n > 0 || !mand; size_t expect_cnt = (size_t) (n < cap ? n : cap);
+        if (n == 0 && mand) { if (r->ok) vh_violation("C05:array-missing-mandatory-accepted", "unit %s: mandatory array reader returned TRUE", vh_esc(msg.p, msg.len)); }
+        else if (n > 0 && (!r->ok || r->count != expect_cnt || first_differs(r, vals[0]))) { snprintf(key, sizeof key, "C05:array-elements-not-delivered:%s", vh_reader_names[r->kind]); vh_violation(key, "unit %s cap %d: ok=%d count=%zu first=%llu, expected %zu elements starting with %d", vh_esc(msg.p, msg.len), cap, r->ok, r->count, (unsigned long long) r->u, expect_cnt, vals[0]); }
+        (void) expect_ok;
+        if ((want_err == 0 && v->nerrs != 0) || (want_err != 0 && (v->nerrs != 1 || v->errs[0] != want_err))) { snprintf(key, sizeof key, "C05:array-error-expected%d-got%d", want_err, v->nerrs ? v->errs[0] : 0); vh_violation(key, "unit %s (array cap %d, %s): errors %d first %d", vh_esc(msg.p, msg.len), cap, mand ? "mandatory" : "optional", v->nerrs, v->nerrs ? v->errs[0] : 0); }
+        else vh_count(want_err == -109 ? "clause.array_missing_mandatory" : (want_err == -108 ? "clause.array_surplus_items" : "clause.array_all_delivered"), 1);
+    }
+    if (s4.steps[0].kind == VR_ARR_FLOAT || s4.steps[0].kind == VR_ARR_DOUBLE) { /* first element is stored as its bit pattern */ }
+    vh_distinct(vh_hash(msg.p, msg.len, 321 + (uint64_t) cap * 8 + s4.steps[0].kind));
+    vh_ctx_free(v);
+}
+
 int main(int argc, char ** argv) {
-    static const vh_phase_t phases[] = { { "well-formed lists x signatures", p0_count, p0_run }, { "malformed data", p1_count, p1_run }, { "input return value", p2_count, p2_run }, { "several units per message", p3_count, p3_run } };
+    static const vh_phase_t phases[] = { { "well-formed lists x signatures", p0_count, p0_run }, { "malformed data", p1_count, p1_run }, { "input return value", p2_count, p2_run }, { "several units per message", p3_count, p3_run }, { "array readers", p4_count, p4_run } };
     vh_require("clause.error-109"); vh_require("clause.error-108"); vh_require("clause.error-104"); vh_require("clause.error-138"); vh_require("clause.error-131");
     vh_require("clause.error-224"); vh_require("clause.error-200"); vh_require("clause.optional_absent_silent"); vh_require("clause.item_delivered_whole");
     vh_require("clause.no_error"); vh_require("clause.malformed_gets_command_error"); vh_require("clause.return_true"); vh_require("clause.return_false");
     vh_require("clause.return_false_on_overrun"); vh_require("ws.after_item"); vh_require("clause.multi_unit_two_or_more_errors");
-    return vh_main(argc, argv, "C05", phases, 4);
+    vh_require("clause.array_all_delivered"); vh_require("clause.array_missing_mandatory");
+    return vh_main(argc, argv, "C05", phases, 5);
 }
